@@ -53,6 +53,7 @@ def leaks(cls, buf, all_entry_points=False):
 def class_sweep(chk, rng, per_vector, all_entry_points=False):
     vectors = sweep.library_vectors()
     evals = 0
+    walked = 0
     kinds = {}
     by_module = {}
     for cls in vectors:
@@ -71,7 +72,20 @@ def class_sweep(chk, rng, per_vector, all_entry_points=False):
                 evals += 1
                 for ep, key, line, e in leaks(cls, b, all_entry_points):
                     yield cls, name, b, ep, key, line, e
-    chk.coverage['class_sweep'] = {'classes': len(vectors), 'buffers': evals}
+        # code points: every value of every one of the first octets of a binary vector (type, algorithm, version, format and
+        # flag octets sit there), one position at a time - a registered code the class has no branch for is a single value
+        walk = [v for v in vectors[cls] if v and not all(32 <= c < 127 or c in (9, 10, 13) for c in v)]
+        walk = sorted(walk, key=len)[:1] if per_vector <= 6 else walk[:6]
+        for v in walk:
+            for i in range(min(len(v), 8 if per_vector <= 6 else 24)):
+                for x in range(256):
+                    if x == v[i]:
+                        continue
+                    b = v[:i] + bytes([x]) + v[i + 1:]
+                    walked += 1
+                    for ep, key, line, e in leaks(cls, b, False):
+                        yield cls, name, b, ep, key, line, e
+    chk.coverage['class_sweep'] = {'classes': len(vectors), 'buffers': evals, 'code_point_walk': walked}
 
 
 def run(chk):
